@@ -217,6 +217,12 @@ pub(crate) fn hash_bytes_compact(input: &[u8]) -> Result<[u8; 32], &'static str>
     Ok(qp_poseidon_core::hash_to_bytes(&felts))
 }
 
+/// Verification hook: public entry to the crate-private compact hash.
+#[cfg(quantus_network_qp_zk_circuits_verif)]
+pub fn verif_hash_bytes_compact(input: &[u8]) -> Result<[u8; 32], &'static str> {
+    hash_bytes_compact(input)
+}
+
 // ============================================================================
 // Digest serialization (4 felts <-> 32 bytes, 8 bytes/felt)
 // ============================================================================
